@@ -389,15 +389,15 @@ def auer_width_rows(alg, S_at_modeling):
     """Auer's width rows keyed by design, and whether the algorithm itself keys them by design
     (`beta_t` is a dict design → row after the D2 fix; before it, an array aligned with the iteration
     order of S at modeling time)."""
-    bt = getattr(alg, "beta_t", None)
-    if bt is None:
+    if getattr(alg, "beta_t", None) is None:
         return {}, True
-    if isinstance(bt, dict):
-        return {int(k): np.asarray(v, dtype=float) for k, v in bt.items()}, True
-    b = np.asarray(bt, dtype=float)
-    if b.ndim != 2 or len(b) != len(S_at_modeling):
-        return {}, False
-    return {int(d): b[k] for k, d in enumerate(S_at_modeling)}, False
+    # the internal store is read through the shared helper (dict by design / positional array / table by design);
+    # an unrecognised form yields no rows (this function only feeds diagnostics)
+    try:
+        rows = stubs.auer_get_widths(alg, list(S_at_modeling))
+        return {int(k): np.asarray(v, dtype=float) for k, v in rows.items()}, stubs.auer_width_form(alg) != "positional"
+    except (stubs.AuerWidthFormUnknown, ValueError, KeyError, IndexError):
+        return {}, True
 
 
 def refreshed_before(alg):
